@@ -242,9 +242,105 @@ def run_comb_stream(ck):
     comb_oracle(ck, NONDYADIC, 2, 1, 0, 1e-9, "C03/combinatorial/single-precision")
 
 
+# ------------------------------------------------------------------------------------------ histories
+HISTORIES = [["HCB", "HCB"], ["HCB", "JW", "HCB"], ["JW", "HCB", "BK", "HCB", "HCB"],
+             ["coeffs_spatial", "coeffs_spatial", "HCB", "coeffs_spatial", "HCB"],
+             ["coeffs", "HCB", "coeffs", "JKMN", "coeffs_spatial", "HCB"],
+             ["HCB", "SCBK", "HCB", "coeffs_spatial"], ["coeffs", "coeffs", "JW", "JW"]]
+
+
+def run_history(terms, n_mo, seq):
+    """The same FermionOperator OBJECT goes through a sequence of encodings / get_coeffs calls.
+    Returns (findings [(signature-suffix, text)], list of HCB result dictionaries)."""
+    import numpy as np
+    from tangelo.toolboxes.qubit_mappings.mapping_transform import fermion_to_qubit_mapping as f2q
+    op = M.make_fop(terms)
+    terms0 = dict(op.terms)
+    findings, held, first, hcb_results = [], [], {}, []
+    F = M.fock_matrix(terms, 2 * n_mo)
+    idx = paired_dets(n_mo)
+    for k, step in enumerate(seq):
+        where = "step %d (%s) of %s" % (k, step, "-".join(seq))
+        try:
+            if step.startswith("coeffs"):
+                cst, one, two = op.get_coeffs(spatial=(step == "coeffs_spatial"))
+                now = (complex(cst), np.array(one, copy=True), np.array(two, copy=True))
+                if step in first and not (abs(first[step][0] - now[0]) < 1e-12 and np.array_equal(first[step][1], now[1])
+                                          and np.array_equal(first[step][2], now[2])):
+                    findings.append(("get_coeffs/result-changed", "%s: get_coeffs returns other tensors than at its first call "
+                                     "(max |delta two-body| = %.3g)" % (where, float(np.max(np.abs(first[step][2] - now[2]))))))
+                first.setdefault(step, now)
+                held.append((where, one, now[1]))
+                held.append((where, two, now[2]))
+            else:
+                q = M.qop_dict(f2q(op, step, n_spinorbitals=2 * n_mo, n_electrons=2, up_then_down=False, spin=0))
+                fresh = M.qop_dict(f2q(M.make_fop(terms), step, n_spinorbitals=2 * n_mo, n_electrons=2, up_then_down=False, spin=0))
+                if M.dict_diff(q, fresh):
+                    d = M.dict_diff(q, fresh)
+                    findings.append(("%s/result-depends-on-history" % step,
+                                     "%s: encoding the same operator object again gives another result than encoding a fresh "
+                                     "copy, e.g. %s: %s vs %s" % (where, d[0], q.get(d[0], 0), fresh.get(d[0], 0))))
+                if step == "HCB":
+                    hcb_results.append((where, q))
+                    Q = M.qubit_matrix(q, n_mo)
+                    if not M.spectra_equal(F[np.ix_(idx, idx)], Q):
+                        findings.append(("HCB/spectrum", "%s: spectrum of the HCB operator differs from the spectrum on the "
+                                         "paired-electron space" % where))
+        except Exception as e:
+            findings.append(("%s/exception" % step.split("_")[0], "%s: %s: %s" % (where, type(e).__name__, e)))
+        # operand snapshots: the operator's terms and every array handed out earlier are unchanged
+        if dict(op.terms) != terms0:
+            findings.append(("operand-mutated", "%s: the terms of the input FermionOperator changed" % where))
+            terms0 = dict(op.terms)
+        for w, arr, cp in held:
+            if not np.array_equal(arr, cp):
+                findings.append(("get_coeffs/returned-array-mutated", "%s: an array returned by get_coeffs at %s was modified "
+                                 "by a later call" % (where, w)))
+        held = [(w, arr, np.array(arr, copy=True)) for w, arr, _ in held]
+    return findings, hcb_results
+
+
+def run_history_stream(ck):
+    quick = ck.tier == "quick"
+    rng = ck.rng
+    ck.stream("history", "the same FermionOperator object (spin-restricted Hermitian Hamiltonian, 2-3 spatial orbitals, real "
+              "8-fold / real 4-fold / complex 4-fold) sent through sequences of encodings and get_coeffs calls (HCB twice, "
+              "HCB-JW-HCB, get_coeffs twice then HCB, ...): every result = result on a fresh copy, HCB spectrum on the "
+              "paired space and = model, get_coeffs stable, operator terms and previously returned arrays unchanged")
+    exprs, pend = [], []
+    for k in range(14 if quick else 140):
+        n_mo = rng.choice([2, 2, 3])
+        terms = gen_restricted_complex(rng, n_mo) if k % 3 == 2 else gen_molecular(rng, n_mo, eightfold=(k % 3 == 0))
+        terms = [(t, c) for t, c in M.make_fop(terms).terms.items()]
+        seq = HISTORIES[k % len(HISTORIES)]
+        case = {"n_mo": n_mo, "seq": seq, "terms": [[list(map(list, t)), [complex(c).real, complex(c).imag]] for t, c in terms]}
+        findings, hcb_results = run_history(terms, n_mo, seq)
+        ck.case("history", json.dumps(case), nontrivial=True, sample={"n_mo": n_mo, "seq": seq, "n_terms": len(terms)},
+                tags=["-".join(seq)])
+        for sig, text in findings:
+            ck.violation("C03/history/%s" % sig, "%s; case %s" % (text, json.dumps(case)[:300]),
+                         {"kind": "history", "case": case}, found_input=True)
+        if hcb_results and all(M.dyadic(c) is not None for _, c in terms):
+            exprs.append("run_hcb hcb_tab_gen %s" % M.coq_fop(terms))
+            pend.append((case, hcb_results, bool(findings)))
+    try:
+        model = ck.coq_eval("history", M.PREAMBLE, exprs, shard=20, jobs=3)
+    except Exception as e:
+        ck.violation("C03/model-evaluation/history", "the Coq model could not be evaluated: %s" % str(e)[-600:],
+                     {"kind": "model-eval", "stream": "history", "error": str(e)[-3000:]}, found_input=False)
+        return
+    for (case, hcb_results, explained), ms in zip(pend, model):
+        mod = M.parse_model("Ok " + ms)
+        for where, q in hcb_results:
+            if M.dict_diff(q, mod[1]) and not explained:      # explained = a concrete finding was already reported for this case
+                ck.violation("C03/history/HCB/correspondence", "%s: HCB result differs from the model; case %s"
+                             % (where, json.dumps(case)[:300]), {"kind": "history", "case": case}, found_input=False)
+
+
 def run(ck):
     run_hcb_stream(ck)
     run_comb_stream(ck)
+    run_history_stream(ck)
 
 
 def replay(r):
@@ -258,7 +354,11 @@ def replay(r):
     ck = CK()
     c = r["case"]
     terms = [(tuple(tuple(x) for x in t), complex(*co)) for t, co in c["terms"]]
-    if r["kind"] == "hcb":
+    if r["kind"] == "history":
+        findings, _ = run_history(terms, c["n_mo"], c["seq"])
+        for sig, text in findings:
+            ck.violation("C03/history/%s" % sig, text, None)
+    elif r["kind"] == "hcb":
         hcb_oracle(ck, terms, c["n_mo"], c["up_then_down"])
     else:
         comb_oracle(ck, terms, c["n_mo"], c["n_alpha"], c["n_beta"], r.get("tol", 1e-7), "C03/combinatorial/spectrum")
